@@ -3,6 +3,9 @@
   The regex engines are opaque (`Finder`); theorems whose name ends in `_partial` say what is missing.
 -/
 import GojaModel.C20.Lemmas
+import GojaModel.C20.SplitLemmas
+import GojaModel.C20.SubstLemmas
+import GojaModel.C20.RefLemmas
 namespace GojaModel.C20
 
 /-! ## PosMap -/
@@ -344,29 +347,43 @@ theorem fastSplit_prefix_witness :
   decide
 
 /-- Fast path of `Symbol.split` (the loop of `stdSplitter`, /repo 5a3ab73) applied to the complete sweep of the finder
-IS the generic algorithm (ECMA-262 22.2.6.14): for every leftmost finder whose captures exec reports unchanged
-(`CapsAgree`), no limit, code-unit mode.  (With a limit / in unicode mode: exact correspondence only.) -/
-theorem fastSplit_eq_generic (f : Finder) (units : List Nat)
-    (hf : Leftmost f units.length) (hc : CapsAgree f units) :
-    fastSplit units ((idealAll ⟨true, false, false⟩ f units 0 none false).map (·.idx)) none
-      = genericSplit f units false none := by
+IS the generic algorithm (ECMA-262 22.2.6.14) — with ANY limit (none, 0, n) and in BOTH modes (code units, and code
+points under the u flag) — for every leftmost finder whose captures exec reports unchanged (`CapsAgree`) and whose
+matches start on the AdvanceStringIndex chain of the search position (`OnChain`: code point boundaries in unicode
+mode; automatic in code-unit mode, see the corollary). -/
+theorem fastSplit_eq_generic (fl : RFlags) (f : Finder) (units : List Nat) (lim : Option Nat)
+    (hf : Leftmost f units.length) (hc : CapsAgree f units) (hch : OnChain f units fl.unicode) :
+    fastSplit units ((idealAll fl f units 0 none false).map (·.idx)) lim = genericSplit f units fl.unicode lim := by
+  by_cases h0 : lim = some 0
+  · subst h0; simp [fastSplit, genericSplit]
+  have hl : (lim == some 0) = false := by
+    cases lim with
+    | none => rfl
+    | some l => simp; intro h; apply h0; rw [h]
   by_cases hn : units.length = 0
-  · simp only [fastSplit, genericSplit, hn]
+  · simp only [fastSplit, genericSplit, hn, hl]
     simp only [idealAll, hn]
-    cases h0 : f 0 with
-    | none => simp [idealAllLoop, matchAt, h0]
+    cases h00 : f 0 with
+    | none => simp [idealAllLoop, matchAt, h00]
     | some r =>
-      have hin := hf.inside 0 r h0
+      have hin := hf.inside 0 r h00
       have hs : r.start = 0 := by omega
-      simp [idealAllLoop, matchAt, h0, hs, hn]
-  · have hmain := split_main f units hf hc (units.length + 1) 0 0 [] 0 (2 * units.length + 4) (units.length + 2)
+      simp [idealAllLoop, matchAt, h00, hs, hn]
+  · have hmain := split_main fl f units lim hf hc hch (units.length + 1) 0 0 [] (2 * units.length + 4) (units.length + 2)
       (by omega) (by omega) (by omega) (by omega)
     have hne : (units.length == 0) = false := by simp [hn]
-    simp only [fastSplit, genericSplit, hne]
-    simp only [G, S, F, finish, idealAll] at hmain ⊢
+    simp only [fastSplit, genericSplit, hne, hl]
+    simp only [G, S, F, finish, idealAll, List.length_nil] at hmain ⊢
     rw [hmain]
     rfl
 
+/-- Code-unit mode (no u flag): the chain hypothesis is automatic. -/
+theorem fastSplit_eq_generic_codeunits (fl : RFlags) (f : Finder) (units : List Nat) (lim : Option Nat)
+    (hu : fl.unicode = false) (hf : Leftmost f units.length) (hc : CapsAgree f units) :
+    fastSplit units ((idealAll fl f units 0 none false).map (·.idx)) lim = genericSplit f units false lim := by
+  have := fastSplit_eq_generic fl f units lim hf hc (by rw [hu]; exact onChain_false f units hf)
+  rw [hu] at this
+  exact this
 
 /-- Fast `Symbol.replace` accumulation (`stringReplace`: copy the piece before each match when
 `start != lastIndex`, then the replacement, then the tail when `lastIndex != length`) = the generic
@@ -396,6 +413,18 @@ theorem fastReplace_eq_generic (units : List Nat) (repl : List Int → List Nat)
     · have : last < units.length := by omega
       simp [hlast, this]
 
+/-- `$` templates: `writeSubstitution` (the index loop of builtin_regexp.go, used by both replace paths) computes
+exactly GetSubstitution of ECMA-262 22.1.3.19.1 (ES2024 wording: `$$`, `` $` ``, `$&`, `$'`, `$n`/`$nn` with the
+two-digit fallback, `$<name>`), for every subject, position, match, capture list, namedCaptures and template.
+`mechNamed ns` is how the Go callbacks present namedCaptures (nil ⇔ undefined; a missing/undefined property ⇔ ""). -/
+theorem substitute_eq_getSubstitution (units : List Nat) (position : Nat) (matched : List Nat)
+    (captures : List (Option (List Nat))) (ns : Option (List Nat → Option (List Nat))) (repl : List Nat) :
+    substitute units position (some matched :: captures) (mechNamed ns) repl =
+      getSubstitution units position matched captures ns (repl.length + 1) repl := by
+  have := subst_main units position matched captures ns repl repl.length 0 [] (repl.length + 1) (repl.length + 1)
+    (by omega) (by omega) (by omega)
+  simpa [substitute] using this
+
 /-- `buildUTF8PosMap` / `positionMap.get` (the path that runs Go's FindAll over a UTF-8 copy of a well-formed
 subject): the strict decoding is the lenient one, offset 0 maps to 0, and the UTF-8 offset of every rune
 boundary maps to the UTF-16 offset of the same boundary. -/
@@ -411,6 +440,24 @@ theorem utf8map_correct (units : List Nat) (l : List (Nat × Nat)) (h : strictDe
   simp only [Nat.zero_add] at hs
   have hne : pre8 l k ≠ 0 := by omega
   simp [pmGet, hne, hs]
+
+/-! ## reference matcher (Ref.lean) -/
+
+/-- The three engine-forcing rewrites used by the check are semantically neutral for the reference semantics
+(ECMA-262 continuation matcher): `(?=)(?:P)`, `(?:P)(?=)` and `(?:P|(?!))` run exactly like `P` from every state
+and with every continuation (the fuel offsets are the extra AST levels). -/
+theorem neutral_variants_equiv (o : Ref.Opts) (inp : Array Nat) (n : Nat) (p : Ref.Node) (st : Ref.St)
+    (k : Ref.St → Option Ref.St) :
+    Ref.run o inp (n + 3) (Ref.variant1 p) st k = Ref.run o inp (n + 1) p st k ∧
+    Ref.run o inp (n + 3) (Ref.variant2 p) st k = Ref.run o inp (n + 1) p st k ∧
+    Ref.run o inp (n + 4) (Ref.variant3 p) st k = Ref.run o inp (n + 2) p st k :=
+  ⟨Ref.neutral_v1 o inp n p st k, Ref.neutral_v2 o inp n p st k, Ref.neutral_v3 o inp n p st k⟩
+
+/-- Bounds of the reference matcher: a match searched from input position i starts at j ≥ i and ends at e with
+j ≤ e ≤ |input| — for every pattern, option set (deviation switches included) and input. -/
+theorem ref_match_bounds (o : Ref.Opts) (inp : Array Nat) (ncaps : Nat) (node : Ref.Node) (fuel i j : Nat) (r : Ref.St)
+    (h : Ref.findFrom o inp ncaps node fuel i = some (j, r)) : i ≤ j ∧ j ≤ r.pos ∧ r.pos ≤ inp.size :=
+  Ref.findFrom_bounds o inp ncaps node fuel i j r h
 
 /-! ## non-vacuity examples (tests on literals, not theorems) -/
 
